@@ -469,6 +469,14 @@ func randomUDOpts(r *fw.Rng, in gen.UpdownInput) (udOpts, string) {
 		o.NoFill = true
 	}
 	o.ThreshPair = []float32{0.1, 0.1, 0.0, 0.3, 0.5, 1.0}[r.Intn(6)]
+	if r.Chance(0.35) {
+		// a proportion k/n that pairs actually take (few consequential sites), as the user would
+		// type it (0.7, 0.35, 0.125 ...): the boundary itself passes
+		n := []int{10, 5, 4, 8, 20}[r.Intn(5)]
+		k := r.Range(1, n-1)
+		v, _ := strconv.ParseFloat(strconv.FormatFloat(float64(k)/float64(n), 'f', -1, 64), 32)
+		o.ThreshPair = float32(v)
+	}
 	if r.Chance(0.3) {
 		o.ThreshTarget = r.Intn(8)
 	}
@@ -545,6 +553,35 @@ func runC08(c *fw.Ctx, idx int) fw.Result {
 	}
 	in := gen.MakeUpdown(r, gen.UpdownProfile{MaxQueries: 5, MaxTargets: 30, PAmbTract: 0.35, MultiHit: true})
 	o, mode := randomUDOpts(r, in)
+	if idx%6 == 4 {
+		// a pair exactly on the --threshold-pair boundary: a query with n SNPs and targets that are
+		// ambiguous at k-1, k and k+1 of those sites (proportion k/n of the consequential sites),
+		// with the threshold typed as the decimal k/n. The boundary itself passes.
+		nk := [][2]int{{10, 7}, {10, 9}, {20, 7}, {20, 9}, {20, 13}, {20, 19}, {10, 3}, {5, 2}, {4, 1}, {8, 5}}[r.Intn(10)]
+		n, k := nk[0], nk[1]
+		if len(in.Ref) >= n {
+			sites := r.Perm(len(in.Ref))[:n]
+			qb := []byte(in.Ref)
+			for _, p := range sites {
+				qb[p] = gen.OtherBase(r, in.Ref[p])
+			}
+			in.Queries = append(in.Queries, gen.FastaRec{ID: "boundary_query", Desc: "boundary_query", Seq: string(qb)})
+			for _, kk := range []int{k - 1, k, k + 1} {
+				tb := []byte(in.Ref)
+				for _, p := range sites[:kk] {
+					tb[p] = "N-?R"[r.Intn(4)]
+					if tb[p] == 'R' && (in.Ref[p] == 'A' || in.Ref[p] == 'G') {
+						tb[p] = 'N'
+					}
+				}
+				in.Targets = append(in.Targets, gen.FastaRec{ID: fmt.Sprintf("boundary_target_%d_of_%d", kk, n), Desc: fmt.Sprintf("boundary_target_%d_of_%d", kk, n), Seq: string(tb)})
+			}
+			v, _ := strconv.ParseFloat(strconv.FormatFloat(float64(k)/float64(n), 'f', -1, 64), 32)
+			o.ThreshPair = float32(v)
+			o.ThreshTarget = 10000
+			res.Count("cases_with_pair_on_threshold_boundary", 1)
+		}
+	}
 	refTxt := gen.RefFasta("root", in.Ref, gen.PickLineWidth(r, len(in.Ref)))
 	qTxt, tTxt := gen.RenderFasta(in.Queries, gen.PickLineWidth(r, len(in.Ref))), gen.RenderFasta(in.Targets, gen.PickLineWidth(r, len(in.Ref)))
 	out, err := run.TopRanking(qTxt, tTxt, refTxt, "fasta", "fasta", o)
